@@ -30,6 +30,7 @@ rows.append("First run: %d of %d caught; now: %d of %d%s.  " % (first, n, caught
             "; ".join("round %s: %d changes, %d caught at the first run, %d now" % (k, v[0], v[1], v[2]) for k, v in sorted(rounds.items())))
 path = os.path.join(VERIF, "DESIGN.md")
 s = open(path).read()
-s = re.sub(r"<!-- BEGIN:seeded -->.*<!-- END:seeded -->", "<!-- BEGIN:seeded -->\n" + "\n".join(rows) + "\n<!-- END:seeded -->", s, flags=re.S)
+block = "<!-- BEGIN:seeded -->\n" + "\n".join(rows) + "\n<!-- END:seeded -->"
+s = re.sub(r"<!-- BEGIN:seeded -->.*<!-- END:seeded -->", lambda m: block, s, flags=re.S)
 open(path, "w").write(s)
 print("\n".join(rows[-3:]))
